@@ -159,11 +159,11 @@ impl RoutePattern {
 
         for segment in &segments {
             if segment.parameter {
-                let segment_str = segment.segment_str(pat.as_str());
-                if names.contains(segment_str) {
+                // `unapply` reports parameter names percent-decoded, so names are compared decoded here too:
+                // "/:id/:%69d" would otherwise yield a single entry in the resulting map.
+                let name = percent_decode_str(segment.segment_str(pat.as_str())).decode_utf8_lossy();
+                if !names.insert(name) {
                     return Err(ParseError(segment.start));
-                } else {
-                    names.insert(segment_str);
                 }
             }
         }
